@@ -533,6 +533,12 @@ pub fn size_part(rep: &mut Report, id: &str, tier: &str) {
             }
         }
     }
+    // E-LONG: one long history per implementation (counts instead of sizes)
+    let long_n = if quick { 1100 } else { 4200 };
+    let n_sized = tasks.len();
+    for sp in specs {
+        tasks.insert(0, json!({"spec": sp, "long": long_n}));
+    }
     let mut pool = crate::pool::Pool::spawn(threads().min(8), "size", &json!({"seed": seed()}));
     let res = pool.map(&tasks);
     let (mut steps, mut failures, mut kept) = (0u64, 0u64, 0u64);
@@ -559,7 +565,8 @@ pub fn size_part(rep: &mut Report, id: &str, tier: &str) {
     rep.cov("size_ladder", json!({
         "rule": "one payload of each listed size at each place (first version of a new client / version on a chain / snapshot / both) in a scripted history that goes on afterwards (accepted and conflicting uploads, declined snapshot, reads, walk from the base, reopen + walk, stored content compared with the model), on every implementation; complete product",
         "sizes": sizes, "places": crate::esize::PLACES, "implementations": specs,
-        "histories": tasks.len(), "requests_compared_with_model": steps, "failure_answers": failures, "findings_for_this_property": kept,
+        "histories": n_sized, "long_histories": {"versions_of_client_A": long_n, "implementations": specs.len(), "rule": "one history of that many versions per implementation under the default targets (14 days, 100 versions): snapshots at versions 3 / 160 / 420 / 1030 / 2500 / 4100, a second client every 97 versions, six bystanders, reads + conflict + declined snapshot at every 2^k-1, 2^k and around 100, 150, 255, 1000, full walk and store comparison at 256 and at the end, again after reopening"},
+        "requests_compared_with_model": steps, "failure_answers": failures, "findings_for_this_property": kept,
     }));
     rep.add_count("traces_validated_against_impl", tasks.len() as u64);
 }
@@ -570,7 +577,11 @@ fn size_class(n: u64) -> String {
 
 fn size_replay(id: &str, file: &str, v: &Value) -> i32 {
     let t = &v["replay"]["task"];
-    let res = crate::esize::run_one(t["spec"].as_str().unwrap_or(""), t["size"].as_u64().unwrap_or(1) as usize, t["place"].as_u64().unwrap_or(0) as usize, seed());
+    let res = if let Some(n) = t["long"].as_u64() {
+        crate::esize::run_long(t["spec"].as_str().unwrap_or(""), n as usize, seed())
+    } else {
+        crate::esize::run_one(t["spec"].as_str().unwrap_or(""), t["size"].as_u64().unwrap_or(1) as usize, t["place"].as_u64().unwrap_or(0) as usize, seed())
+    };
     for f in res["findings"].as_array().cloned().unwrap_or_default() {
         if f["class"] == v["replay"]["class"] && f["tags"].as_array().map(|a| a.iter().any(|x| x == id)).unwrap_or(false) {
             println!("VIOLATION property={id} replay={file}");
@@ -1287,6 +1298,10 @@ fn c04_check(tier: &str, replay: Option<&str>) -> i32 {
                     samples.push(json!({"history": tasks[k]["hist"], "vfs_log_entries": res["log_len"]}));
                 }
                 for f in res["findings"].as_array().cloned().unwrap_or_default() {
+                    if f["class"] == "machinery" {
+                        rep.machinery_errors.push(format!("history {:?}: {}", tasks[k]["hist"], f["msg"].as_str().unwrap_or("")));
+                        continue;
+                    }
                     rep.violations.push(Violation {
                         property: "C04".into(),
                         signature: format!("ecrash|{}", f["class"].as_str().unwrap_or("")),
